@@ -123,6 +123,8 @@ def function_chunks(files, names):
                 # the capsule-destructor index is a library-wide numbering (like a line
                 # number); a shift caused by another function is not a change of this wrapper
                 ln = re.sub(r"idtor(\s*)=(\s*)\d+", r"idtor\1=\2#", ln)
+                # (the capsule destructor index is also the last argument of ShroudStrToArray)
+                ln = re.sub(r"(ShroudStrToArray\(.*,\s*)\d+\);", r"\1#);", ln)
                 res[cur].append(ln)
                 s_ = ln.strip().lower()
                 if ln == "}" or s_.startswith("end function") or s_.startswith("end subroutine"):
